@@ -60,3 +60,37 @@ def halflock_induction(chk, consts, readers=3, timeout=600):
     elif not ok:
         chk.note("HalfLockSC.tla: IndInv is not inductive for the extracted parameters (ReadOrder=%s, Barrier=%s): "
                  "no unbounded argument; the exhaustive checks of HalfLock.tla decide" % (ro, ba))
+
+
+def halflock_proof(chk, consts, timeout=600):
+    """TLAPS: HalfLockProof.tla proves Spec => []NoUseAfterFree for any number of readers and any set of
+    snapshot addresses. It is a proof about the shape the code has now (count before pointer, barrier over
+    both slots, swap publishing); for any other extracted shape it does not apply (NOTE)."""
+    if shutil.which("tlapm") is None:
+        chk.note("tlapm not found: the TLAPS proof (HalfLockProof.tla) was not re-checked")
+        return
+    if (consts.get("ReadOrder"), consts.get("Barrier"), consts.get("Publish", "swap"), consts.get("Sticky", True)) != \
+            ("count_then_ptr", "both", "swap", True):
+        chk.note("HalfLockProof.tla is a proof about the shape count_then_ptr / both / swap / sticky; the extracted "
+                 "shape differs (%s): the proof does not apply" % {k: consts.get(k) for k in ("ReadOrder", "Barrier", "Publish", "Sticky")})
+        return
+    rundir = os.path.join(WORK, "tlaps_%s" % chk.pid)
+    shutil.rmtree(rundir, ignore_errors=True)
+    os.makedirs(rundir)
+    shutil.copy(os.path.join(SPEC, "HalfLockProof.tla"), rundir)
+    t0 = time.time()
+    p = subprocess.run(["timeout", str(timeout), "tlapm", "--threads", "8", "HalfLockProof.tla"], cwd=rundir,
+                       stdout=subprocess.PIPE, stderr=subprocess.STDOUT, text=True, errors="replace")
+    wall = round(time.time() - t0, 1)
+    with open(os.path.join(rundir, "tlapm.out"), "w") as f:
+        f.write(p.stdout[-100000:])
+    m = re.search(r"All (\d+) obligations proved", p.stdout)
+    chk.extra.setdefault("proofs", []).append({
+        "module": "HalfLockProof.tla", "tool": "tlapm (TLAPS 1.6; SMT / Zenon / Isabelle back ends)",
+        "theorem": "Spec => []NoUseAfterFree, for any set of readers and of snapshot addresses (reused after free)",
+        "obligations_proved": int(m.group(1)) if m else 0, "all_proved": bool(m), "wall_s": wall})
+    print("  PRF %-40s %s in %.1fs" % ("HalfLockProof.tla (TLAPS)", m.group(0) if m else "NOT all obligations proved", wall),
+          flush=True)
+    if not m:
+        chk.note("tlapm did not prove every obligation of HalfLockProof.tla (see work/tlaps_%s/tlapm.out): no "
+                 "verdict drawn from it" % chk.pid)
